@@ -8,9 +8,11 @@ EXPLANATION = __doc__
 
 
 def run(ctx, rep):
+    splayrules.check_new(ctx, rep)
     splayrules.check_size(ctx, rep)
     splayrules.check_stable(ctx, rep)
     splayrules.check_direction(ctx, rep)
+    splayrules.check_comparator_calls(ctx, rep)
     splayrules.check_mirror(ctx, rep)
     splayrules.check_lookup(ctx, rep)
     splayrules.check_returns(ctx, rep)
